@@ -12,6 +12,8 @@
 (*  addrunner    i, ok             Add(runner i) returned nil (ok) / an error *)
 (*  addcloser.call j               AddCloser(closer j) is being called       *)
 (*  addcloser.ret  j, ok           ... returned nil (ok) / an error          *)
+(*  addcloser.retmix j, ok         the same for a call that offered closer j *)
+(*               together with a value of an unsupported type                *)
 (*  addcloser.bad  ok              AddCloser(value of an unsupported type)   *)
 (*  runcall      id                Run is being called                       *)
 (*  runstarted                     a Run won the manager's running flag      *)
@@ -25,7 +27,10 @@
 (*  runnerstart  i ; seescancel i  (runner i observed ctx.Done())            *)
 (*  runnerreturn i, class in {"nil","err","deadline","canceled","wcanceled"},*)
 (*               id (the error's id; "" when none)                           *)
-(*  closerstart  j ; closerreturn j, class in {"nil","err","kcanceled"}, id  *)
+(*  closerstart  j ; closerreturn j, class in {"nil","err","kcanceled" (an   *)
+(*               error wrapping Canceled), "kfmt" (fmt.Errorf("..%w",        *)
+(*               Canceled)), "kraw" (context.Canceled itself, id "canceled")}*)
+(*  panic        what              a method of the manager panicked          *)
 (*  fatal                          the fatal-shutdown action ran             *)
 (*  q                              quiescence: nothing can move any more     *)
 (*               unless the environment acts or time passes                  *)
@@ -47,12 +52,12 @@ CReset(e) ==
    phase |-> "new",
    rreg |-> [i \in 1..e.nr |-> i <= e.r0],           \* registered runners
    rst |-> [i \in 1..e.nr |-> "idle"],               \* idle | started | cancelled | returned
-   creg |-> [j \in 1..e.nc |-> "no"],                \* no | pending | yes | maybe
+   creg |-> [j \in 1..e.nc |-> "no"],                \* no | pending | yes | maybe | mixed
    cst |-> [j \in 1..e.nc |-> "idle"],               \* idle | started | returned
    cause |-> FALSE,        \* a reason to cancel the runners' context exists
    t0 |-> -1,              \* instant at which the last runner returned (closers' start)
    must |-> <<>>,          \* ids of errors that have to be reported (a bag)
-   may |-> <<>>,           \* ids on which the statement is silent (wrapped Canceled, closers' Canceled)
+   may |-> <<>>,           \* ids on which the statement is silent (a runner's error that wraps Canceled)
    fatal |-> FALSE,
    late |-> FALSE,         \* a closer was still unfinished strictly after t0 + G
    tie |-> FALSE,          \* a closer finished exactly at t0 + G
@@ -70,6 +75,9 @@ AllRet(c) == \A i \in Rs(c) : c.rreg[i] => c.rst[i] = "returned"
 ClosersInvoked(c) == \A j \in Cs(c) : c.creg[j] = "yes" => c.cst[j] # "idle"
 ClosersDone(c) == \A j \in Cs(c) : c.creg[j] = "yes" => c.cst[j] = "returned"
 Outstanding(c) == \E j \in Cs(c) : c.cst[j] = "started"
+(* a closer is still to finish: running, or registered and not even announced yet (with a grace period of zero the  *)
+(* timer may fire before the closers' goroutines get to run)                                                        *)
+Unfinished(c) == \E j \in Cs(c) : c.cst[j] = "started" \/ (c.creg[j] \in {"yes", "mixed"} /\ c.cst[j] = "idle")
 NothingRegistered(c) == NoRunners(c) /\ \A j \in Cs(c) : c.creg[j] # "yes"
 CauseNow(c, now) == c.cause \/ (c.pdl >= 0 /\ now >= c.pdl)
 
@@ -111,6 +119,13 @@ CAddCloserCall(c, e) ==
 CAddCloserRet(c, e) ==
   IF c.creg[e.j] # "pending" THEN Bad("harness: AddCloser return without call")
   ELSE [c EXCEPT !.creg[e.j] = IF e.ok THEN "yes" ELSE "maybe"]
+
+(* AddCloser(good, unsupported) reports the unsupported value; the statement does not say what becomes of the good *)
+(* closer (closer.go keeps it): it counts as possibly registered - it may be invoked, and while it has not finished *)
+(* it is a closer that can outlast the grace period                                                                 *)
+CAddCloserRetMix(c, e) ==
+  IF c.creg[e.j] # "pending" THEN Bad("harness: AddCloser return without call")
+  ELSE [c EXCEPT !.creg[e.j] = IF e.ok THEN "yes" ELSE "mixed"]
 
 CAddCloserBad(c, e) ==
   IF e.ok THEN Bad("AddCloser accepted a value of an unsupported type") ELSE c
@@ -202,8 +217,8 @@ CCloserStart(c0, e) ==
 CCloserReturn(c, e) ==
   IF c.cst[e.j] # "started" THEN Bad("harness: return of a closer that is not running")
   ELSE [c EXCEPT !.cst[e.j] = "returned",
-                 !.must = IF e.class = "err" THEN Append(@, e.id) ELSE @,
-                 !.may = IF e.class = "kcanceled" THEN Append(@, e.id) ELSE @,
+                 \* the Canceled filter is stated for runners only: whatever a closer returns is reported
+                 !.must = IF e.class # "nil" THEN Append(@, e.id) ELSE @,
                  !.late = @ \/ (c.G >= 0 /\ c.t0 >= 0 /\ e.now > c.t0 + c.G),
                  !.tie = @ \/ (c.G >= 0 /\ c.t0 >= 0 /\ e.now = c.t0 + c.G)]
 
@@ -216,7 +231,7 @@ CFatal(c0, e) ==
   ELSE IF c.phase # "running" THEN Bad("the fatal-shutdown action ran outside the shutdown of a running manager")
   ELSE IF c.t0 < 0 \/ ~AllRet(c) THEN Bad("the fatal-shutdown action ran while runners are still running")
   ELSE IF e.now < c.t0 + c.G THEN Bad("the fatal-shutdown action ran before the grace period elapsed")
-  ELSE IF ~(Outstanding(c) \/ c.late \/ c.tie) THEN Bad("the fatal-shutdown action ran although no closer outlasted the grace period")
+  ELSE IF ~(Unfinished(c) \/ c.late \/ c.tie) THEN Bad("the fatal-shutdown action ran although no closer outlasted the grace period")
   ELSE [c EXCEPT !.fatal = TRUE]
 
 PendingRun(c) == \E k \in DOMAIN c.runs : c.runs[k] = "called"
@@ -257,6 +272,7 @@ CNext(c, e) ==
   ELSE CASE e.ev = "addrunner"      -> CAddRunner(c, e)
          [] e.ev = "addcloser.call" -> CAddCloserCall(c, e)
          [] e.ev = "addcloser.ret"  -> CAddCloserRet(c, e)
+         [] e.ev = "addcloser.retmix" -> CAddCloserRetMix(c, e)
          [] e.ev = "addcloser.bad"  -> CAddCloserBad(c, e)
          [] e.ev = "runcall"        -> CRunCall(c, e)
          [] e.ev = "runstarted"     -> CRunStarted(c)
@@ -270,5 +286,6 @@ CNext(c, e) ==
          [] e.ev = "closerstart"    -> CCloserStart(c, e)
          [] e.ev = "closerreturn"   -> CCloserReturn(c, e)
          [] e.ev = "fatal"          -> CFatal(c, e)
+         [] e.ev = "panic"          -> Bad("a manager method panicked")
          [] e.ev = "q"              -> CQuiesce(c, e)
 =============================================================================
